@@ -543,9 +543,9 @@ func Execute(sc *Scenario) *Result {
 	select {
 	case sr = <-done:
 		res.Returned = true
-	case <-time.After(5 * time.Second):
+	case <-time.After(12 * time.Second):
 		held := atomic.LoadInt64(&r.inflight)
-		fail("C03", "Send did not return within 5s (cancel=%+v, nodes inside Process: %d, context cancelled: %v)", sc.Cancel, held, r.cancelled.Load())
+		fail("C03", "Send did not return within 12s (cancel=%+v, nodes inside Process: %d, context cancelled: %v)", sc.Cancel, held, r.cancelled.Load())
 	}
 	// let held nodes go, then wait for the Send's goroutines to finish
 	close(r.release)
@@ -555,7 +555,7 @@ func Execute(sc *Scenario) *Result {
 		case <-time.After(3 * time.Second):
 		}
 	}
-	deadline := time.Now().Add(3 * time.Second)
+	deadline := time.Now().Add(10 * time.Second)
 	for {
 		if atomic.LoadInt64(&r.inflight) == 0 && graphGoroutines() <= base {
 			break
@@ -621,8 +621,8 @@ func Execute(sc *Scenario) *Result {
 		}()
 		select {
 		case <-fin:
-		case <-time.After(4 * time.Second):
-			fail("C03", "after this Send had returned (cancel=%+v), setting the type's thresholds again / a further Send on the same Broker did not return within 4s: the finished Send still holds a lock", sc.Cancel)
+		case <-time.After(12 * time.Second):
+			fail("C03", "after this Send had returned (cancel=%+v), setting the type's thresholds again / a further Send on the same Broker did not return within 12s: the finished Send still holds a lock", sc.Cancel)
 		}
 	}
 	return res
